@@ -144,6 +144,10 @@ func cmdCheck(args []string) {
 			retry = append(retry, o)
 		}
 	}
+	if os.Getenv("GOVC_NORETRY") != "" {
+		// seed sweeps: an undecided obligation is as good as a failed one for "was the change noticed"
+		retry = nil
+	}
 	if len(retry) > 0 {
 		fmt.Fprintf(os.Stderr, "govc check %s: %d undecided obligation(s), retrying with timeout %ds\n", prop, len(retry), 2*timeout)
 		solveAll(retry, dir, 2*timeout, 5, false)
